@@ -59,6 +59,7 @@ package text
 //@   ensures ncalls(Delete) == 1 && callarg(Delete, 1, 1) == callres(termKey, 1, 0) && callarg(termKey, 1, 0) == term && result == callres(Delete, 1, 0)
 //@ func (docCacheItem).ReadFrom
 //@   property C05 C08
+//@   pure
 //@   allocates
 //@   ensures ncalls(Get) == 1 && callarg(Get, 1, 1) == callres(documentKey, 1, 0) && callarg(documentKey, 1, 0) == id
 //@   ensures callres(Get, 1, 0) == nil ==> err == cache.ErrNotFound && ncalls(Unmarshal) == 0
